@@ -570,6 +570,8 @@ pub enum IdPolicy {
     SmallPool,
     Wide,
     Fixed(u8),
+    /// boundary values, present and absent mixed: None, 0, 9, 10, 25, 100, 255
+    Edge,
 }
 
 #[derive(Clone, Debug)]
@@ -612,17 +614,19 @@ impl Station {
             _ => addr[2..].copy_from_slice(b"VDM"),
         }
         let id_policy = if pool_ids {
-            match rng.below(4) {
+            match rng.below(5) {
                 0 => IdPolicy::Absent,
                 1 => IdPolicy::Fixed(rng.below(3) as u8),
+                2 => IdPolicy::Edge,
                 _ => IdPolicy::SmallPool,
             }
         } else {
-            match rng.below(6) {
+            match rng.below(7) {
                 0 => IdPolicy::Absent,
                 1 | 2 => IdPolicy::Cycle10,
                 3 => IdPolicy::SmallPool,
                 4 => IdPolicy::Wide,
+                5 => IdPolicy::Edge,
                 _ => IdPolicy::Fixed(rng.below(10) as u8),
             }
         };
@@ -656,6 +660,7 @@ impl Station {
             IdPolicy::SmallPool => Some(rng.below(3) as u8),
             IdPolicy::Wide => Some(rng.byte()),
             IdPolicy::Fixed(v) => Some(v),
+            IdPolicy::Edge => *rng.pick(&[None, Some(0), Some(9), Some(10), Some(25), Some(100), Some(255), Some(255), None]),
         }
     }
 
